@@ -9,7 +9,6 @@ package inputroot
 import (
 	"bytes"
 	"fmt"
-	"os"
 	"sort"
 	"strings"
 
@@ -390,5 +389,3 @@ func newNaiveSeq(c *compiled, maxFiles int, depth map[string]int) *mc.Seq {
 		Panics: []string{prop},
 	}
 }
-
-var _ = os.ErrNotExist
